@@ -2,4 +2,5 @@
 # Offline build of the Lean library (model + proofs) and the Mathlib-free driver executable.
 set -e
 cd "$(dirname "$0")/lean"
-lake build drv SysLoss
+mkdir -p .lake
+flock .lake/verif-build.lock lake build drv SysLoss
